@@ -7,6 +7,7 @@ func init() {
 			c.SignIffApproved("C06", nil)
 			c.SuccessNeedsEverything("C06")
 			c.HandlerSignature("C06")
+			c.AccountUnlockNeedsPassphrase("C06")
 			c.SyncOption("C03")            // a store that cannot be read back makes the instance refuse to start: no option or "recovery" that drops records
 			c.ReplyRequestScoped("C16")    // the state and signature the client reads are the ones this call wrote
 			c.SigningRootProvenance("C06") // incl. C06.O5: a malformed root or domain fails the hash
